@@ -63,7 +63,19 @@ def main():
         lines.append("")
         lines.append("| mutant | file | verdict | reported by |")
         lines.append("|---|---|---|---|")
+        from_patches = [r for r in st["results"] if r["id"].startswith(("seed-", "benign-"))]
+        if from_patches:
+            ns = sum(1 for r in from_patches if r["id"].startswith("seed-"))
+            ok_s = sum(1 for r in from_patches if r["id"].startswith("seed-") and r["verdict"] in ("caught", "caught-other"))
+            nb = len(from_patches) - ns
+            ok_b = sum(1 for r in from_patches if r["id"].startswith("benign-") and r["verdict"] == "silent-ok")
+            lines.append(f"Of these, {len(from_patches)} are the sub-agents' patches replayed as overlays: {ok_s}/{ns} seeded "
+                         f"changes reported, {ok_b}/{nb} behaviour-preserving changes silent (listed in B.2 / B.3, not "
+                         f"repeated in the table below).")
+            lines.append("")
         for r in st["results"]:
+            if r["id"].startswith(("seed-", "benign-")):
+                continue
             m = muts.get(r["id"], {})
             f = m.get("file") or ", ".join(sorted({e.get("file", "?") for e in m.get("edits", [])}))
             lines.append(f"| {r['id']} | {f.replace('ad_afqmc/', '')} | {r['verdict']} | "
@@ -82,9 +94,30 @@ def main():
         by = "; ".join(f"{c} ({', '.join(v.get('rules', [])) or 'rc=' + str(v.get('rc'))})" for c, v in sorted(det.items()))
         rows.append(f"| {os.path.basename(d)} | {own} | {what} | {by or '**not reported** — ' + res.get('note', '')} |")
     if rows:
-        lines += ["| seeded id | target property | change | reported by |", "|---|---|---|---|"] + rows
+        n_rep = sum(1 for r in rows if "**not reported**" not in r)
+        lines += [f"{len(rows)} changes, {n_rep} reported by at least one check (exit 1 with a VIOLATION line naming the "
+                  f"construct), {len(rows) - n_rep} not reported (why: DESIGN.md 9.7).  Ids -1..-3 are the first campaign, "
+                  f"-4..-6 the second (written after the checks had been strengthened on the first).", "",
+                  "| seeded id | target property | change | reported by |", "|---|---|---|---|"] + rows
     else:
         lines.append("(none kept yet)")
+    lines += ["", "### B.3 Behaviour-preserving changes written by independent sub-agents (kept under /verif/benign/)", ""]
+    brows = []
+    for d in sorted(glob.glob(os.path.join(VERIF, "benign", "*"))):
+        mp, rp = os.path.join(d, "meta.json"), os.path.join(d, "result.json")
+        if not os.path.exists(mp):
+            continue
+        meta = json.load(open(mp))
+        res = json.load(open(rp)) if os.path.exists(rp) else {}
+        what = meta.get("summary", "").replace("|", "/").replace("\n", " ")[:200]
+        alarms = "; ".join(sorted(res.get("alarms", {}))) if res else "?"
+        brows.append(f"| {os.path.basename(d)} | {meta.get('kind', '')[:40]} | {what} | {alarms or 'all 20 checks silent'} |")
+    if brows:
+        n_sil = sum(1 for r in brows if r.endswith("all 20 checks silent |"))
+        lines += [f"{len(brows)} changes (test suite unchanged, demo digests identical on clean and patched tree), "
+                  f"{n_sil} leave all 20 checks silent.  Ids -1..-4: first campaign, -5..-8: second campaign (asked for "
+                  f"more adventurous restructurings).", "",
+                  "| id | kind | change | checks that alarm |", "|---|---|---|---|"] + brows
     lines += ["", END]
     p = os.path.join(VERIF, "DESIGN.md")
     s = open(p).read()
